@@ -75,6 +75,35 @@ func loadFindings(path string) []Finding {
 
 var noClosure bool
 
+// closureFits: some property the contract is tagged for loads a subset of this property's packages and assumed-contract files
+func closureFits(verif string, pc *PropConfig, uc *Contract) bool {
+	have := map[string]bool{}
+	for _, p := range pc.Packages {
+		have["p:"+p] = true
+	}
+	for _, e := range pc.Extern {
+		have["e:"+e] = true
+	}
+	for _, id := range uc.Props {
+		var o PropConfig
+		data, err := os.ReadFile(filepath.Join(verif, "props", id+".json"))
+		if err != nil || json.Unmarshal(data, &o) != nil {
+			continue
+		}
+		ok := true
+		for _, p := range o.Packages {
+			ok = ok && have["p:"+p]
+		}
+		for _, e := range o.Extern {
+			ok = ok && have["e:"+e]
+		}
+		if ok {
+			return true
+		}
+	}
+	return false
+}
+
 func main() {
 	if len(os.Args) < 2 {
 		fmt.Fprintln(os.Stderr, "usage: gowp check|dump ...")
@@ -353,6 +382,15 @@ func cmdCheck(args []string) int {
 			for _, k := range ks {
 				uc := enc.usedCons[k]
 				if queued[k] || uc.Inline || eng.findFunction(uc) == nil {
+					continue
+				}
+				// the callee's proof was developed with the packages / assumed contracts of the properties its props
+				// line names; it is pulled in only if this property loads at least what one of them loads (otherwise
+				// facts its proof takes from contracts in packages not loaded here would be missing and a true
+				// obligation would go undischarged - a false alarm); else it stays a listed assumption
+				if !closureFits(*verif, &pc, uc) {
+					assumed["contract of "+k+" assumed here (its own proof belongs to "+strings.Join(uc.Props, "/")+", whose packages this property does not load)"] = true
+					queued[k] = true
 					continue
 				}
 				queued[k] = true
